@@ -23,7 +23,7 @@ CONSTANTS GenDepth,     \* length of the histories to emit
           GenPending,   \* TRUE: Announce / HandleTx enabled
           Script,       \* <<>>: free generation; otherwise the exact action sequence to follow
                         \* (regression histories: TLC recomputes the expected views for them)
-          GenWant,      \* "" or the name of an event every emitted history must contain:
+          GenWant,      \* "" or the name of an event every emitted history must contain ("rb-multi", see NewFlags, or):
                         \*   "import-reorg": a block step pulled a rescan cursor back (reorganisation below the cursor
                         \*                   processed while the wallet was importing); the import may not complete before
           GenRandom     \* TRUE (simulation only): one random instance per action kind, so that
@@ -67,7 +67,11 @@ Expect ==
     ELSE [q |-> FALSE]
 
 NewFlags ==
-    IF \E x \in Wallets : status[x] = "importing" /\ cursor'[x] < cursor[x] THEN {"import-reorg"} ELSE {}
+    (IF \E x \in Wallets : status[x] = "importing" /\ cursor'[x] < cursor[x] THEN {"import-reorg"} ELSE {})
+    \* "rb-multi": the wallet disconnects a block that holds a transaction with several inputs
+    \* (debits of one transaction recorded under their input indexes, owners mixed)
+    \cup (IF \E b \in GoneBlocks(wchain, wchain') : \E t \in Range(content[b]) : Cardinality(TxIns[t]) >= 2
+          THEN {"rb-multi"} ELSE {})
 
 \* the wallet state after a block step is a block boundary whether or not more tips are queued:
 \* what a query that answers "as of this boundary" must report (C17)
